@@ -111,6 +111,10 @@ type Engine struct {
 	seqNow         uint64
 	lastPolicyPush uint64 // seq at which the policy goroutine last recorded a batch
 	lastClearInv   uint64 // seq of the latest Clear invocation
+	// C03 "no overwrite raises a resident key's cost": tracked for runs with a
+	// single writer (see noteWrite)
+	raised    bool
+	costTrack []costTrack
 	modelAs        string // reference model deciding another property (C15 freshness)
 	modelFrom      uint64
 	nMarkerQueued  int    // Wait markers that have entered the write buffer
@@ -321,6 +325,10 @@ func cbReject(it *ristretto.Item[*Val]) {
 	}
 	if e.dec9.active && e.dec9.key == it.Key {
 		e.dec9.rejSeq = seq
+	} else if !e.plan.Flags.Race {
+		// C09: a newcomer is turned away only for a cause the admission policy
+		// established (too large, already resident, out-voted)
+		e.violate("C09", "rejected-without-decision", fmt.Sprintf("value %d (key %d) was reported through OnReject although the admission policy was not consulted for it", v.ID, v.Key), seq)
 	}
 	probe(PrRejected)
 }
@@ -890,6 +898,48 @@ func (e *Engine) flushNotifies() {
 	}
 }
 
+// costTrack follows one key through a single-writer history: has it been
+// written since it was last known to be absent (never written, or deleted and
+// drained by a Wait, or cleared), and what is the smallest cost it was given
+// since then. A Set with a larger cost than that may be an overwrite that
+// raises the cost of a resident (or pending) key: the run then leaves the part
+// of C03 that promises RemainingCost() >= 0.
+type costTrack struct {
+	written    bool
+	minCost    int64
+	delPending bool
+}
+
+func (e *Engine) noteWrite(key int, cost int64) {
+	if e.costTrack == nil {
+		e.costTrack = make([]costTrack, e.nkeys)
+	}
+	t := &e.costTrack[key]
+	if t.written && cost > t.minCost {
+		e.raised = true
+	}
+	if !t.written || cost < t.minCost {
+		t.minCost = cost
+	}
+	t.written, t.delPending = true, false
+}
+
+func (e *Engine) noteDel(key int) {
+	if e.costTrack != nil {
+		e.costTrack[key].delPending = true
+	}
+}
+
+// noteDrained: a Wait returned (all) or a Clear returned (clear): keys whose
+// last write was a Del are absent now; after a Clear every key is.
+func (e *Engine) noteDrained(clear bool) {
+	for i := range e.costTrack {
+		if clear || e.costTrack[i].delPending {
+			e.costTrack[i] = costTrack{}
+		}
+	}
+}
+
 type blockedWaiter struct {
 	cl  *client
 	seq int
@@ -1333,6 +1383,12 @@ func (e *Engine) runOp(cl *client, oi int, op Op) {
 		if op.Cost == 0 && !e.plan.Cfg.CostFn {
 			v.FnC = 0
 		}
+		if eff := op.Cost; true {
+			if eff == 0 {
+				eff = v.FnC // what Config.Cost will return (0 without a Cost function)
+			}
+			e.noteWrite(op.Key, eff)
+		}
 		v.InvT = time.Now().UnixNano()
 		cl.curVal = v
 		inv := e.log(Ev{Kind: EvInvoke, Op: OpSet, Task: tk, OpIx: ix, Key: int32(op.Key), Val: int32(v.ID), A: op.Cost, B: op.TTL})
@@ -1360,6 +1416,7 @@ func (e *Engine) runOp(cl *client, oi int, op Op) {
 			probe(PrDelWhileBuffered)
 		}
 		e.api.Del(op.Key)
+		e.noteDel(op.Key)
 		e.log(Ev{Kind: EvReturn, Op: OpDel, Task: tk, OpIx: ix, Key: int32(op.Key), Ref: inv})
 		e.opEnd(cl)
 	case OpGetTTL:
@@ -1385,6 +1442,7 @@ func (e *Engine) runOp(cl *client, oi int, op Op) {
 		cl.waitSeq++
 		cl.waitQueued = false
 		e.api.Wait()
+		e.noteDrained(false)
 		e.log(Ev{Kind: EvReturn, Op: OpWait, Task: tk, OpIx: ix, Ref: inv})
 		e.opEnd(cl)
 	case OpClear:
@@ -1399,6 +1457,7 @@ func (e *Engine) runOp(cl *client, oi int, op Op) {
 		if !wasClosed && !e.closed {
 			e.checkWaitersReleased(waiters, inv, "Clear")
 		}
+		e.noteDrained(true)
 		if !wasClosed && !e.clearDirty && atomic.LoadInt32(&e.clearActive) == 1 && atomic.LoadInt32(&e.inflight) == 1 {
 			e.checkFreshAfterCleanClear(inv)
 		}
